@@ -297,11 +297,11 @@ impl<'r> Gen<'r> {
             "r#type", "self", "a,b,c", "a, b,", "é", "0x1ff", "0b1_0000_0000", "1_000", "300u8", "0x10", "-0x81", "+5", "[u8; 4]", "fn(u8) -> u8", "impl Clone", "_", "m!()", "!", "(u8)",
             "*const u8", "&'a str", "[u8]", "dyn Clone + Send", "(u8, u16)", "T: Clone", "[0x2]", "[0.5, 0x2]", "b'a'", "a + b; c",
         ];
-        const EXPRS: [&str; 58] = [
+        const EXPRS: [&str; 64] = [
             "[1, 2, 3]", "[\"a\", \"b\"]", "[1, \"a\"]", "[]", "[300, 1]", "[-1]", "[1u8, 2u64]", "a::b", "::a", "foo(1)", "1..2", "..", "(1)", "{ 1 }", "|x| x", "&x", "x as u8", "1 + 2",
             "-1", "-129", "!true", "a.b", "a[0]", "if a { 1 } else { 2 }", "Self", "self", "crate::x", "<T as U>::V", "b'a'", "b\"bytes\"", "r#\"raw\"#", "'a'", "'\\n'", "x!()", "0x10", "0xff_u8", "-0x10", "[0.5, 0x2]", "[b'a', b'b']", "['a', 'b']", "[true, false]", "1.5e3", "0o17", "|a| a + 1",
             "path::to::f", "[b\"x\", b\"y\"]", "[1.0, 2]", "2", "-128", "-32768", "-2147483648", "-9223372036854775808", "-170141183460469231731687303715884105728", "-127", "-1.5", "-0",
-            "-255", "-256",
+            "-255", "-256", "[0; 4]", "[0; 18446744073709551615]", "[7; 4611686018427387904]", "[1; 0]", "[x; 2]", "[0u8; 3]",
         ];
         match self.rng.below(12) {
             0 => Form::Word,
@@ -472,6 +472,14 @@ impl<'r> Gen<'r> {
                 }
                 if self.mistake(self.cfg.allow.literal, 5) {
                     return self.item(name, Form::List(vec![Nested::Lit { text: "\"unit\"".into(), range: ZERO }]));
+                }
+                if self.mistake(self.cfg.allow.bad_value, 5) {
+                    // a variant named without quotes is an expression, not a string: rejected
+                    let v = usable[self.rng.below(usable.len())];
+                    let text = if self.rng.pct(70) { v.name.to_string() } else { "no_such_variant".to_string() };
+                    if syn::parse_str::<syn::Ident>(&text).is_ok() {
+                        return self.item(name, Form::NV(Value::PathExpr(text)));
+                    }
                 }
                 let v = usable[self.rng.below(usable.len())];
                 if r < 45 {
